@@ -320,6 +320,11 @@ def run_check(prop, tier, seed):
             ty = rec.get("t")
             if ty == "violation":
                 rec["engine"], rec["flavour"] = eng, flav
+                if "spec" not in rec and not t.corpus_spec and n_predumps < 12 and rec.get("kind") in ("asan_report", "tsan_report", "unexpected_exception"):
+                    n_predumps += 1
+                    spec = predump(t, prop, tier, seed, rec.get("config"), rec.get("case"))
+                    if spec:
+                        rec["spec"] = spec
                 if rec.get("kind") == "asan_report":
                     rec["stderr"] = extract_report(getattr(t, "stderr_all", ""), "AddressSanitizer")
                     sanitizer_reports["asan"] += 1
